@@ -193,6 +193,57 @@ def rule_violation(rts, util_comb, ts, last=None, insufficient=False):
   return None
 
 
+def as_items(o):
+  if o == 'I':
+    return None
+  return [('result', o)] if isinstance(o, (int, float)) else list(o)
+
+
+def history_violation(rts, util_comb, ts, outcomes):
+  """C13 rule in terms of the HISTORY (Props/C13History.lean): the recorded p-values of every name
+  are everything the runs `outcomes` returned under that name, in order; the state is the decision
+  for exactly those; `finished` (last run returned a list, names may repeat) counts one decision
+  per item of the last result."""
+  hist = {}
+  for o in outcomes:
+    for n, p in (as_items(o) or []):
+      hist.setdefault(n, []).append(p)
+  rec = {n: list(v) for n, v in ts.p_values.items()}
+  if list(rec.keys()) != list(hist.keys()) or any(
+      vals(rec[n]) != vals(hist[n]) for n in hist):
+    return 'recorded p-values %r are not the history %r' % (rec, hist)
+  if set(ts.state.keys()) != set(hist.keys()) or set(ts.combined_p_values.keys()) != set(hist.keys()):
+    return 'names with a state %r / combined value %r differ from names returned %r' % (
+        list(ts.state), list(ts.combined_p_values), list(hist))
+
+  def decide(pv):
+    c = util_comb(pv)
+    if c < ts.p_value_fail:
+      return rts.State.FAILED
+    return rts.State.PASSED if util_comb([ts.p_value_repeat] * len(pv)) < c else rts.State.UNDECIDED
+  try:
+    for n, pv in hist.items():
+      if ts.state[n] != decide(pv):
+        return 'sub-test %r: state %s, rule on the returned p-values %r gives %s' % (
+            n, ts.state[n].name, pv, decide(pv).name)
+    last = as_items(outcomes[-1]) if outcomes else None
+    if last is not None:
+      before = {}
+      for o in outcomes[:-1]:
+        for n, p in (as_items(o) or []):
+          before.setdefault(n, []).append(p)
+      und = 0
+      for n, p in last:
+        before.setdefault(n, []).append(p)
+        und += decide(before[n]) == rts.State.UNDECIDED
+      exp = und == 0 and len(outcomes) >= ts.min_repetitions
+      if ts.finished != exp:
+        return 'finished=%r, per-item rule on the history gives %r' % (ts.finished, exp)
+  except ValueError:
+    return None
+  return None
+
+
 def make_test(script, counter, nist_suite, name='Fake'):
   def fake(bits, n, *params):
     o = script[counter[0]] if counter[0] < len(script) else 'I'
@@ -276,6 +327,7 @@ def correspondence(rep, rng, tier):
           o = script[j]
           last = None if o == 'I' else ([('result', o)] if isinstance(o, (int, float)) else o)
           failure = rule_violation(rts, real_comb, ts, last=last, insufficient=(o == 'I'))
+          failure = failure or history_violation(rts, real_comb, ts, script[:j + 1])
           if failure is None and rets[-1] != ts.finished:
             failure = 'Run returned %r, finished=%r' % (rets[-1], ts.finished)
       if impl is None:
@@ -283,7 +335,7 @@ def correspondence(rep, rng, tier):
       tag = style + ('/raise' if impl.startswith('err') else '')
       b.add('su.run %s %s %s %s %s' % (V(fail), V(rp), H(min_rep),
                                        ';'.join(fmt_outcome(o) for o in script), rec.take()),
-            impl, tag=tag, pred=(lambda f=failure: f))
+            impl, tag=tag, pred=(lambda f=failure: f), always=True)
     rep.absorb(b, b.run())
 
     # ---------------- TestSource / TestBitString with scripted tests and source
@@ -341,19 +393,24 @@ def correspondence(rep, rng, tier):
                     ret, [t.Failed() for t in created])
               elif not all(t.finished for t in created):
                 failure = 'TestSource returned while a test is unfinished'
-            for t in created:
+            for idx, t in enumerate(created):
               failure = failure or rule_violation(rts, real_comb, t)
+              # the structure of test i is the history of column i of the script (run exactly in
+              # the rounds in which it was unfinished)
+              failure = failure or history_violation(rts, real_comb, t, scripts[sel[idx]][:t.runs])
           except StopScript:
             impl = 'ok running'
             if all(t.finished for t in created) and created:
               failure = 'TestSource asked for more bits although every test is finished'
+            for idx, t in enumerate(created):
+              failure = failure or history_violation(rts, real_comb, t, scripts[sel[idx]][:t.runs])
           except ValueError:
             impl = 'err ValueError'
           tag = ('none-selected' if not sel else impl.split(' ')[1] if impl.startswith('ok') else 'raise')
           bs.add('su.source %s %s %s %s %s %s' % (H(len(sel)), V(fail), V(rp), H(min_rep),
                                                   rounds if sel else '|'.join(['[]'] * fuel),
                                                   rec.take()),
-                 impl, tag=tag, pred=(lambda f=failure: f))
+                 impl, tag=tag, pred=(lambda f=failure: f), always=True)
         else:
           # --- TestBitString
           counter[0] = 0
@@ -369,23 +426,85 @@ def correspondence(rep, rng, tier):
               failure = failure or rule_violation(rts, real_comb, t)
               if t.runs != 1:
                 failure = failure or 'test run %d times' % t.runs
+            for idx, t in enumerate(created):
+              failure = failure or history_violation(rts, real_comb, t, scripts[sel[idx]][:1])
           except ValueError:
             impl = 'err ValueError'
           bb.add('su.bits %s %s %s %s' % (H(len(sel)), V(fail),
                                           ';'.join(fmt_outcome(scripts[i][0]) for i in sel) if sel else '[]',
                                           rec.take()),
                  impl, tag=('none-selected' if not sel else impl[:4].strip()),
-                 pred=(lambda f=failure: f))
+                 pred=(lambda f=failure: f), always=True)
     finally:
       rts.TESTS, rts.TestStructure = saved_tests, saved_cls
     rep.absorb(bs, bs.run())
     rep.absorb(bb, bb.run())
   finally:
     rec.uninstall()
+  if not quick and not rep.violations:
+    # thorough tier: the search-only part (sentences 1-2 of C13) on one seed per generator
+    search(rep, rng, 'quick')
+
+
+# sentence 2 of C13: (generator, documented test prefix, log2 of the number of bits per round)
+WEAK_PAIRS = [
+    ('trunclcg32', 'FindBias', 16), ('trunclcg64', 'FindBias', 16), ('trunclcg128', 'FindBias', 16),
+    ('lehmer128', 'FindBias', 16), ('lehmer128/16', 'FindBias', 16), ('java', 'FindBias', 16),
+    ('mwc64', 'FindBias', 16), ('mwc128', 'FindBias', 16), ('mwc256', 'FindBias', 16),
+    ('xorshift128+', 'LargeBinaryMatrixRank', 18), ('xorwow', 'LargeBinaryMatrixRank', 18),
+    ('xorshift*', 'LargeBinaryMatrixRank', 23), ('xorshift128+', 'LinearComplexityScatter', 22),
+]
+GOOD_RNGS = ['shake128', 'pcg64', 'philox']
 
 
 def search(rep, rng, tier):
-  pass
+  """SEARCH ONLY (runs under `./check C13 --search`, ~2 min quick): sentences 1-2 of C13 have no
+  theorem and no model.  For random seeds: every bundled weak generator must make the real
+  TestSource, restricted to the test the documentation names, return True (sentence 2); 2^20 bits
+  of a seeded cryptographic generator must not make TestBitString return True at the default
+  1e-9 level (sentence 1).  A miss is a failing input of the property (a seed), nothing more can
+  be concluded from a pass than "not refuted on these seeds"."""
+  import time
+  from paranoid_crypto.lib.randomness_tests import random_test_suite as rts, rng as R
+  quick = tier == 'quick'
+  t0 = time.time()
+  runs = []
+  for name, prefix, lg in WEAK_PAIRS:
+    for _ in range(1 if quick else 5):
+      seed = rng.getrandbits(48)
+      g = R.GetRng(name)
+      cnt = [0]
+
+      def source(n, g=g, seed=seed, cnt=cnt):
+        cnt[0] += 1
+        return g.RandomBits(n, seed=seed + cnt[0])
+      try:
+        ret = rts.TestSource(source, 2**lg, test_prefix=prefix, log_level=0)
+      except Exception as e:  # noqa
+        ret = 'raised %r' % (e,)
+      runs.append((name, prefix, lg, seed, ret))
+      if ret is not True:
+        rep.violations.append(dict(
+            op='su.weakgen', line='TestSource(%s seed=%d+round, n=2**%d, test_prefix=%r)' % (
+                name, seed, lg, prefix),
+            what='documented weak generator %s is not failed by %s: returned %r' % (name, prefix, ret),
+            impl=repr(ret), model=None, info=None))
+  for name in (GOOD_RNGS[:1] if quick else GOOD_RNGS):
+    seed = rng.getrandbits(48)
+    bits = R.GetRng(name).RandomBits(2**20, seed=seed)
+    try:
+      ret = rts.TestBitString(bits, 2**20, log_level=0)
+    except Exception as e:  # noqa
+      ret = 'raised %r' % (e,)
+    runs.append((name, 'ALL', 20, seed, ret))
+    if ret is not False:
+      rep.violations.append(dict(
+          op='su.goodgen', line='TestBitString(%s seed=%d, n=2**20)' % (name, seed),
+          what='cryptographic generator %s reported as failed at 1e-9: %r' % (name, ret),
+          impl=repr(ret), model=None, info=None))
+  rep.extra['sentences_1_2_search'] = dict(
+      runs=len(runs), wall_s=round(time.time() - t0, 1),
+      note='search only: seeds tried %r' % ([(r[0], r[1], r[3]) for r in runs],))
 
 
 def replay(doc):
